@@ -173,6 +173,27 @@ theorem succ_day (g : Int) :
       rw [this]; omega
     · split at hlen <;> omega
 
+/-- **months have 30 and 29 days alternately** (odd months 30), months 1..11 -/
+theorem month_lengths (y m : Int) (h1 : 1 ≤ m) (h2 : m ≤ 11) :
+    tabFixed y (m + 1) 1 - tabFixed y m 1 = if m % 2 = 1 then 30 else 29 := by
+  unfold tabFixed
+  have : m = 1 ∨ m = 2 ∨ m = 3 ∨ m = 4 ∨ m = 5 ∨ m = 6 ∨ m = 7 ∨ m = 8 ∨ m = 9 ∨ m = 10 ∨ m = 11 := by omega
+  rcases this with h | h | h | h | h | h | h | h | h | h | h <;> subst h <;> simp <;> omega
+
+/-- **the twelfth month has 30 days exactly in leap years, 29 otherwise**: the year has 355 or 354 days -/
+theorem twelfth_month_and_year_length (y : Int) :
+    tabFixed (y + 1) 1 1 - tabFixed y 12 1 = (if (11 * y + 14) % 30 < 11 then 30 else 29) ∧
+    tabFixed (y + 1) 1 1 - tabFixed y 1 1 = (if (11 * y + 14) % 30 < 11 then 355 else 354) := by
+  have hl := yearLen y
+  rw [tabFixed_first, tabFixed_first]
+  have h12 : tabFixed y 12 1 = yearStart y + 325 := by unfold tabFixed yearStart; omega
+  rw [h12]
+  constructor <;> (split at hl <;> simp_all <;> omega)
+
+/-- **11 leap years in every 30-year cycle** -/
+theorem leap_years_per_cycle :
+    ((List.range 30).filter fun (y : Nat) => decide ((11 * (y : Int) + 14) % 30 < 11)).length = 11 := by decide
+
 /-- the tabular date determines the day: the mapping is one-to-one -/
 theorem round_trip (g : Int) : tabFixed (tabDate g).1 (tabDate g).2.1 (tabDate g).2.2 = g := by
   simp only [tabDate, tabFixed]; omega
